@@ -150,8 +150,9 @@ def ltchar (matrix : Matrix) (f : Font) (fontsize scaling rise : Rat) (cid : Nat
   let (x0, y0, x1, y1) := apply_matrix_rect matrix bbox
   let (x0, x1) := if x1 < x0 then (x1, x0) else (x0, x1)
   let (y0, y1) := if y1 < y0 then (y1, y0) else (y0, y1)
+  let (a, b, c, d, _, _) := matrix
   { m := matrix, adv := adv, bbox := (x0, y0, x1, y1), size := if f.vertical then x1 - x0 else y1 - y0,
-    font := f.name, col := ncolor }
+    upright := ltchar_upright a b c d scaling, font := f.name, col := ncolor }
 
 /-! ### `PDFTextDevice.render_string_horizontal` / `render_string_vertical` -/
 
